@@ -22,11 +22,11 @@ INFO = {
                   'tools.submit.Priority.max', 'fe.submit.Defer.__call__/Process.step_1/step_3/failure', 'fe.api.cmd_reset', 'pl.farm.dispatch (archive branch)'],
     'bounds': {'quick': 'histories of <=4 events from the running state (14 event kinds), then drain; a directed family of 7-event histories (work queued, two submissions of any priorities, settle = a whole reload cycle, 3 free events) across reload cycles', 'thorough': '<=5 free events; directed family with 8 events'},
     'assumptions': [
-        'FsmWorld fakes (see C10): background steps and pollers complete when scheduled; a poller whose condition does not hold stays pending',
+        'FsmWorld fakes (see C10): background steps complete when scheduled; a poller is a parked thread resumed by the schedule (its locals survive between looks); the queue is emptied in place and re-bound to a new list whenever work is (re)organised, as the real scheduler does',
         'work abstraction: three independent flags - queue non-empty, something executing (needs the queue), a worker busy - toggled by events (farm._busy / schedule.que set accordingly)',
         'tools.submit.automatic / already_applied / mail are stubs; the busy flag of the real Defer admits one submission at a time',
     ],
-    'outside': ['real thread timing between a poller leaving its loop and its continuation running', 'what a poller keeps in locals across iterations of its sleep loop (re-evaluated from its first line at every completion attempt)', 'longer histories'],
+    'outside': ['real thread timing between a poller leaving its loop and its continuation running', 'longer histories'],
 }
 
 
